@@ -185,7 +185,10 @@ Par ==
                                      HybPrefix("EM", TRUE, TRUE),
                                      \* the same images with second ISO9660 names made before add_eltorito
                                      HybPrefixL("ME", FALSE, FALSE, {"I"}), HybPrefixL("ME", TRUE, TRUE, {"I", "E", "M"}),
-                                     HybPrefixL("EM", TRUE, TRUE, {"I"}), HybPrefixL("EM", TRUE, FALSE, {"E"})},
+                                     HybPrefixL("EM", TRUE, TRUE, {"I"}), HybPrefixL("EM", TRUE, FALSE, {"E"}),
+                                     \* a last file that fills its sectors to the last (non-zero) byte: where no
+                                     \* cylinder padding is needed the volume ends with that byte
+                                     HybPrefix("ME", FALSE, FALSE) \o <<AF("Z", "h4096")>>},
          maxent |-> 3, maxfiles |-> 3, links |-> FALSE]
     [] Profile = "c12G" ->     \* thorough: the full product
         [names |-> {}, blobs |-> {}, dirs |-> {}, boot |-> {},
